@@ -127,7 +127,10 @@ func runDamage(r *Runner) {
 	for _, n := range files {
 		st := starts[n]
 		f := tree.File(n)
-		if len(st) < 2 || !strings.HasSuffix(n, ".data") {
+		if strings.HasSuffix(n, ".hint") {
+			st = fullChunkStarts(f.Content()) // two hint entries of the same length exchanged: a key then points at another key's record
+		}
+		if len(st) < 2 {
 			continue
 		}
 		ext := func(i int) int64 {
@@ -637,4 +640,25 @@ func (ctx *crashCtx) tryDamageLive(tree *vos.Tree, cfg Config, d Damage) {
 		return
 	}
 	r.inc("damage_live_images")
+}
+
+// fullChunkStarts walks a file of single-chunk records (a hint file) by its chunk headers and returns the offsets
+// at which chunks start; it stops at the first thing that is not a complete FULL chunk.
+func fullChunkStarts(data []byte) []int64 {
+	var out []int64
+	off := int64(0)
+	for off+7 <= int64(len(data)) {
+		if blockSz-off%blockSz < 7 {
+			off += blockSz - off%blockSz
+			continue
+		}
+		n := int64(data[off+4]) | int64(data[off+5])<<8
+		typ := data[off+6]
+		if typ != 0 || n == 0 || off+7+n > int64(len(data)) || (off+7+n-1)/blockSz != off/blockSz {
+			break
+		}
+		out = append(out, off)
+		off += 7 + n
+	}
+	return out
 }
